@@ -18,33 +18,26 @@ therefore decided **partially**.
 
     theorem C09_outcome : ∀ sc, Good sc (run sc)            -- FALSE, see the counterexamples
 
-Several classes of scenarios violate it (each reproduced on the real driver by the check):
+Since the fixes abd397a (codes < 100 → `sol::FAILURE`), f454558 (infeasibility code kept when
+`ConstraintKeeper` re-raises), 87b3b50 (`WriteSolFile` closes the file and throws on write errors) the
+**code class** and **completeness** parts hold at full strength (`C09_code_class`, `C09_complete`,
+`C09_write_error_is_diagnosed`; the former counterexamples are now the regression theorems
+`C09_fixed_code1`, `C09_fixed_infeas500`, `C09_fixed_writeerr`).  The classes that still deviate:
 
 * `optdims`     an exception inside the option-parsing window of `OnHeader` (unknown option,
                 ill-typed value, `objno` too large) is reported in a `.sol` whose four count lines
                 are `0 0 0 0` instead of the header's: the solution handler exists, but
                 `NLProblemBuilder::OnHeader` has not populated the problem yet.
-* `code1`       `ReadError`, `BinaryReadError`, `UnsupportedError`, `Error("fmt", args…)` are
-                built by ctors that leave `exit_code_ = EXIT_FAILURE` (1); `Run` takes any
-                `exit_code() >= 0` as the solve code → `.sol` with code **1** (class "solved").
 * `hdrdims`     the same mechanism one step later: `NLProblemBuilder::OnHeader` itself throws on an
-                inconsistent header (`MP_ASSERT_ALWAYS`, `std::length_error`) with the problem partially
-                populated → the count lines are whatever was populated so far.
-* `infeas500`   `MP_INFEAS` (code 200) raised while a constraint is converted or a result propagated is
-                caught by `ConstraintKeeper`'s `catch (std::exception&)` and re-raised with `MP_RAISE`:
-                the model *is* proven infeasible ("Model infeasible: empty variable domain") but the
-                `.sol` carries 500.
-* `writeerr`    `<stub>.sol` opens but the data cannot be written (`ENOSPC`, `EIO`): `fmt::BufferedFile`
-                ignores the error → truncated/empty `.sol`, exit status 0.
+                inconsistent header with the problem partially populated.
 * `standalone`  without `-AMPL` and with `wantsol&1 = 0` an error is only printed on stdout (not at
                 all with `wantsol&8`), exit status 0.
 * `ctorcode`    (latent) an `mp::Error` escaping to `RunBackendApp` is turned into the exit status
                 `exit_code() mod 256`, which is 0 for codes 0, 256, 512, 768.
 * `foreign`     (latent) an exception not derived from `std::exception` → `std::terminate`.
 
-`C09_outcome_partial` proves the property for every scenario outside these classes, and the
-`C09_*_general` theorems prove that *every* scenario inside a class behaves as described (so the
-classes are exact, not just examples).
+`C09_outcome_partial` proves the property for every scenario outside these classes (`Regular`), and
+the `C09_*_general` theorems prove that *every* scenario inside a class behaves as described.
 -/
 namespace MpVerif.C09
 
@@ -108,12 +101,12 @@ theorem C09_dims_partial (sc : Scenario) (e : Ending) (f : SolFile) (ech : Bool)
       · cases hh : st.handlerAvailable
         · simp [hi, hh] at h
         · have hd := dimsKnown_of_handler_ne_options st hh hst hsp
-          cases hw : wantsFile a w <;> cases ho : sc.out.canOpen <;> simp [hi, hh, hw, ho] at h
+          cases hw : wantsFile a w <;> cases ho : sc.out.writable <;> simp [hi, hh, hw, ho] at h
           obtain ⟨rfl, _⟩ := h
           simp [errFile, errDims, hd]
   | finished a w =>
     rw [conclude_finished] at h
-    cases hw : wantsFile a w <;> cases ho : sc.out.canOpen <;> simp [hw, ho] at h
+    cases hw : wantsFile a w <;> cases ho : sc.out.writable <;> simp [hw, ho] at h
     obtain ⟨rfl, _⟩ := h
     cases hd : sc.answer.haveDual <;> cases hp : sc.answer.havePrimal <;> simp [okFile, hd, hp]
 
@@ -125,7 +118,7 @@ theorem C09_optdims_general (sc : Scenario) (a : Bool) (w : Nat) (r : Raise) (f 
   by_cases hr : r = .foreign
   · rw [hr, conclude_foreign] at h; simp at h
   · rw [conclude_raised sc a w _ r hr] at h
-    cases hw : wantsFile a w <;> cases ho : sc.out.canOpen <;>
+    cases hw : wantsFile a w <;> cases ho : sc.out.writable <;>
       simp [Stage.insideRun, Stage.handlerAvailable, hw, ho] at h
     obtain ⟨rfl, _⟩ := h
     simp [errFile, errDims, Stage.dimsKnown]
@@ -138,76 +131,80 @@ theorem C09_hdrdims_general (sc : Scenario) (a : Bool) (w : Nat) (r : Raise) (f 
   by_cases hr : r = .foreign
   · rw [hr, conclude_foreign] at h; simp at h
   · rw [conclude_raised sc a w _ r hr] at h
-    cases hw : wantsFile a w <;> cases ho : sc.out.canOpen <;>
+    cases hw : wantsFile a w <;> cases ho : sc.out.writable <;>
       simp [Stage.insideRun, Stage.handlerAvailable, hw, ho] at h
     obtain ⟨rfl, _⟩ := h
     simp [errFile, errDims, Stage.dimsKnown]
 
-/-- **Code class.** Whenever a `.sol` is written its code is in the class of the cause
-(the solver's own code if nothing went wrong; 200–299 for infeasibility; 500–999 for failures;
-the raiser's code for `Abort(c)`/sol-check), *unless* the exception object was built by one of
-the `EXIT_FAILURE` ctors. -/
-theorem C09_code_class_partial (sc : Scenario) (e : Ending) (k : Cause) (f : SolFile) (ech : Bool)
-    (h : conclude sc e = .sol f ech) (hk : e.cause = some k)
-    (hctor : ∀ a w st r, e = .raised a w st r → r.exitFailureCtor = false ∧ r ≠ .wrappedInfeas) :
+/-- **Code class — full strength** (since abd397a / f454558; was `C09_code_class_partial`).
+Whenever a `.sol` is written its code is in the class of the cause: the solver's own code if nothing
+went wrong; 200–299 for infeasibility (also when `MP_INFEAS` is re-raised by `ConstraintKeeper`);
+500–999 for every failure — in particular for `ReadError`, `UnsupportedError`, `Error("fmt", …)`, whose
+`exit_code()` is `EXIT_FAILURE`; the raiser's code (≥ 100) for `Abort(c)` / sol-check.  No hypothesis
+on the ending. -/
+theorem C09_code_class (sc : Scenario) (e : Ending) (k : Cause) (f : SolFile) (ech : Bool)
+    (h : conclude sc e = .sol f ech) (hk : e.cause = some k) :
     codeOK sc.answer k f.code := by
   cases e with
   | info => simp [conclude] at h
   | raised a w st r =>
-    obtain ⟨hc, hwi⟩ := hctor a w st r rfl
     simp only [Ending.cause, Option.some.injEq] at hk
     by_cases hr : r = .foreign
     · rw [hr, conclude_foreign] at h; simp at h
     · rw [conclude_raised sc a w st r hr] at h
       cases hi : st.insideRun
       · rw [hi] at h; cases hx : r.toExn <;> rw [hx] at h <;> simp at h
-      · cases hh : st.handlerAvailable <;> cases hw : wantsFile a w <;> cases ho : sc.out.canOpen <;>
+      · cases hh : st.handlerAvailable <;> cases hw : wantsFile a w <;> cases ho : sc.out.writable <;>
           simp [hi, hh, hw, ho] at h
         obtain ⟨rfl, _⟩ := h
         simp only [errFile]
         rw [reportCode_of_raise, ← hk]
-        cases r <;> simp [Raise.cause, codeOK, Raise.exitFailureCtor] at hc hwi ⊢
+        cases r <;> simp [Raise.cause, codeOK] at hr ⊢
         rename_i c
-        by_cases hc0 : 0 ≤ c <;> simp [hc0, codeOK]
+        by_cases hc0 : 100 ≤ c <;> simp [hc0, codeOK]
   | finished a w =>
     simp only [Ending.cause, Option.some.injEq] at hk
     subst hk
     rw [conclude_finished] at h
-    cases hw : wantsFile a w <;> cases ho : sc.out.canOpen <;> simp [hw, ho] at h
+    cases hw : wantsFile a w <;> cases ho : sc.out.writable <;> simp [hw, ho] at h
     obtain ⟨rfl, _⟩ := h
     simp [codeOK, okFile]
 
-/-- **`code1`, exactly.** Every `.sol` written for a `ReadError` / `UnsupportedError` /
-formatted `Error` carries solve code 1. -/
-theorem C09_code1_general (sc : Scenario) (a : Bool) (w : Nat) (st : Stage) (r : Raise) (f : SolFile) (ech : Bool)
+/-- The former `code1` class: exceptions whose object keeps `exit_code_ = EXIT_FAILURE` (1) are now
+reported with `sol::FAILURE`. -/
+theorem C09_exit_failure_ctor_reports_500 (sc : Scenario) (a : Bool) (w : Nat) (st : Stage) (r : Raise) (f : SolFile) (ech : Bool)
     (hr : r.exitFailureCtor = true)
-    (h : conclude sc (.raised a w st r) = .sol f ech) : f.code = 1 := by
+    (h : conclude sc (.raised a w st r) = .sol f ech) : f.code = 500 := by
   have hnf : r ≠ .foreign := by cases r <;> simp [Raise.exitFailureCtor] at hr ⊢
   rw [conclude_raised sc a w st r hnf] at h
   cases hi : st.insideRun
   · rw [hi] at h; cases hx : r.toExn <;> rw [hx] at h <;> simp at h
-  · cases hh : st.handlerAvailable <;> cases hw : wantsFile a w <;> cases ho : sc.out.canOpen <;>
+  · cases hh : st.handlerAvailable <;> cases hw : wantsFile a w <;> cases ho : sc.out.writable <;>
       simp [hi, hh, hw, ho] at h
     obtain ⟨rfl, _⟩ := h
     simp only [errFile]
     rw [reportCode_of_raise]
     cases r <;> simp [Raise.exitFailureCtor] at hr ⊢
 
-/-- **`infeas500`, exactly.** Every `.sol` written for a wrapped infeasibility carries 500. -/
-theorem C09_infeas500_general (sc : Scenario) (a : Bool) (w : Nat) (st : Stage) (f : SolFile) (ech : Bool)
+/-- The former `infeas500` class: an infeasibility re-raised by `ConstraintKeeper` keeps code 200. -/
+theorem C09_wrapped_infeas_keeps_200 (sc : Scenario) (a : Bool) (w : Nat) (st : Stage) (f : SolFile) (ech : Bool)
     (h : conclude sc (.raised a w st .wrappedInfeas) = .sol f ech) :
-    f.code = 500 ∧ (Ending.raised a w st .wrappedInfeas).cause = some .infeasible := by
+    f.code = 200 ∧ (Ending.raised a w st .wrappedInfeas).cause = some .infeasible := by
   rw [conclude_raised sc a w st _ (by simp)] at h
   cases hi : st.insideRun
   · rw [hi] at h; simp [Raise.toExn] at h
-  · cases hh : st.handlerAvailable <;> cases hw : wantsFile a w <;> cases ho : sc.out.canOpen <;>
+  · cases hh : st.handlerAvailable <;> cases hw : wantsFile a w <;> cases ho : sc.out.writable <;>
       simp [hi, hh, hw, ho] at h
     obtain ⟨rfl, _⟩ := h
-    simp [errFile, Raise.toExn, Exn.reportCode, solFAILURE, Ending.cause, Raise.cause]
+    simp [errFile, Raise.toExn, Exn.reportCode, Ending.cause, Raise.cause]
 
-/-- **Completeness of the file = ability to flush**, for every ending (`writeerr`, exactly). -/
-theorem C09_complete_iff_flush (sc : Scenario) (e : Ending) (f : SolFile) (ech : Bool)
-    (h : conclude sc e = .sol f ech) : f.complete = sc.out.canFlush := by
+/-- **Completeness — full strength** (since 87b3b50; was `C09_complete_iff_flush`): a run that ends
+with exit status 0 and a `.sol` has written it completely, and the path was writable; a write error
+(`ENOSPC`, `EIO`) ends on stderr instead (`C09_write_error_is_diagnosed`). -/
+theorem C09_complete (sc : Scenario) (e : Ending) (f : SolFile) (ech : Bool)
+    (h : conclude sc e = .sol f ech) : f.complete = true ∧ sc.out.canOpen = true ∧ sc.out.canFlush = true := by
+  have key : sc.out.writable = true → sc.out.canOpen = true ∧ sc.out.canFlush = true := by
+    simp [OutPath.writable]
   cases e with
   | info => simp [conclude] at h
   | raised a w st r =>
@@ -216,15 +213,38 @@ theorem C09_complete_iff_flush (sc : Scenario) (e : Ending) (f : SolFile) (ech :
     · rw [conclude_raised sc a w st r hr] at h
       cases hi : st.insideRun
       · rw [hi] at h; cases hx : r.toExn <;> rw [hx] at h <;> simp at h
-      · cases hh : st.handlerAvailable <;> cases hw : wantsFile a w <;> cases ho : sc.out.canOpen <;>
+      · cases hh : st.handlerAvailable <;> cases hw : wantsFile a w <;> cases ho : sc.out.writable <;>
           simp [hi, hh, hw, ho] at h
         obtain ⟨rfl, _⟩ := h
-        rfl
+        exact ⟨rfl, key ho⟩
   | finished a w =>
     rw [conclude_finished] at h
-    cases hw : wantsFile a w <;> cases ho : sc.out.canOpen <;> simp [hw, ho] at h
+    cases hw : wantsFile a w <;> cases ho : sc.out.writable <;> simp [hw, ho] at h
     obtain ⟨rfl, _⟩ := h
-    rfl
+    exact ⟨rfl, key ho⟩
+
+/-- The former `writeerr` class: if a file is wanted, a handler exists and the path opens but the
+data cannot be written, the run ends with `Error: …` on stderr and exit status 1. -/
+theorem C09_write_error_is_diagnosed (sc : Scenario) (e : Ending)
+    (hwant : ∀ a w, (e = .finished a w ∨ ∃ st r, e = .raised a w st r) → wantsFile a w = true)
+    (hmodel : e ≠ .info) (hh : ∀ a w st r, e = .raised a w st r → st.handlerAvailable = true)
+    (hnf : ∀ a w st, e ≠ .raised a w st .foreign)
+    (hflush : sc.out.canFlush = false) :
+    conclude sc e = .stderrExit 1 := by
+  have ho : sc.out.writable = false := by simp [OutPath.writable, hflush]
+  cases e with
+  | info => exact absurd rfl hmodel
+  | raised a w st r =>
+    have hw := hwant a w (Or.inr ⟨st, r, rfl⟩)
+    have hha := hh a w st r rfl
+    have hr : r ≠ .foreign := fun h => hnf a w st (by rw [h])
+    have hi := handler_imp_insideRun st hha
+    rw [conclude_raised sc a w st r hr]
+    simp [hi, hha, hw, ho]
+  | finished a w =>
+    have hw := hwant a w (Or.inl rfl)
+    rw [conclude_finished]
+    simp [hw, ho]
 
 /-- **stderr only if no file can be written, and then with a non-zero status** — except for an
 `mp::Error` escaping from the constructor stage whose code is a multiple of 256 (`ctorcode`). -/
@@ -250,11 +270,11 @@ theorem C09_stderr_partial (sc : Scenario) (e : Ending) (status : Nat)
           exact ⟨by simp [cannotWrite, Stage.handlerAvailable], exitStatus_ne_zero c (hctor a w r c rfl hx), exitStatus_lt c⟩
         | stdExn => rw [hx] at h; simp at h; subst h; simp [cannotWrite, Stage.handlerAvailable]
         | foreign => rw [hx] at h; simp at h; subst h; simp [cannotWrite, Stage.handlerAvailable]
-      · cases hh : st.handlerAvailable <;> cases hw : wantsFile a w <;> cases ho : sc.out.canOpen <;>
+      · cases hh : st.handlerAvailable <;> cases hw : wantsFile a w <;> cases ho : sc.out.writable <;>
           simp [hi, hh, hw, ho] at h <;> subst h <;> simp [cannotWrite, hh, ho]
   | finished a w =>
     rw [conclude_finished] at h
-    cases hw : wantsFile a w <;> cases ho : sc.out.canOpen <;> simp [hw, ho] at h
+    cases hw : wantsFile a w <;> cases ho : sc.out.writable <;> simp [hw, ho] at h
     subst h
     simp [cannotWrite, ho]
 
@@ -278,12 +298,12 @@ theorem C09_crash_iff_foreign (sc : Scenario) (e : Ending) :
         rw [conclude_raised sc a w st r hr] at h
         cases hi : st.insideRun
         · rw [hi] at h; cases hx : r.toExn <;> rw [hx] at h <;> simp at h
-        · cases hh : st.handlerAvailable <;> cases hw : wantsFile a w <;> cases ho : sc.out.canOpen <;>
+        · cases hh : st.handlerAvailable <;> cases hw : wantsFile a w <;> cases ho : sc.out.writable <;>
             simp [hi, hh, hw, ho] at h
     | finished a w =>
       exfalso
       rw [conclude_finished] at h
-      cases hw : wantsFile a w <;> cases ho : sc.out.canOpen <;> simp [hw, ho] at h
+      cases hw : wantsFile a w <;> cases ho : sc.out.writable <;> simp [hw, ho] at h
   · rintro ⟨a, w, st, rfl⟩
     exact conclude_foreign sc a w st
 
@@ -304,13 +324,13 @@ theorem C09_stdout_only_iff (sc : Scenario) (e : Ending) :
       · rw [conclude_raised sc a w st r hr] at h
         cases hi : st.insideRun
         · rw [hi] at h; cases hx : r.toExn <;> rw [hx] at h <;> simp at h
-        · cases hh : st.handlerAvailable <;> cases hw : wantsFile a w <;> cases ho : sc.out.canOpen <;>
+        · cases hh : st.handlerAvailable <;> cases hw : wantsFile a w <;> cases ho : sc.out.writable <;>
             simp [hi, hh, hw, ho] at h
           all_goals exact ⟨rfl, Or.inr ⟨st, r, rfl, hh, hr⟩⟩
     | finished a w =>
       refine ⟨a, w, ?_⟩
       rw [conclude_finished] at h
-      cases hw : wantsFile a w <;> cases ho : sc.out.canOpen <;> simp [hw, ho] at h
+      cases hw : wantsFile a w <;> cases ho : sc.out.writable <;> simp [hw, ho] at h
       all_goals exact ⟨rfl, Or.inl rfl⟩
   · rintro ⟨a, w, hw, rfl | ⟨st, r, rfl, hh, hr⟩⟩
     · rw [conclude_finished]; simp [hw]
@@ -347,19 +367,17 @@ allowed outcomes: a complete `.sol` with the header's dimensions and a code of t
 or — only when no file can be written — `Error: …` on stderr with a non-zero exit status. -/
 theorem C09_outcome_partial_end (sc : Scenario) (e : Ending) (hreg : Regular sc e) :
     GoodEnd sc e (conclude sc e) := by
-  obtain ⟨hflush, hreg⟩ := hreg
   cases e with
   | info => simp [GoodEnd, Ending.cause, conclude]
   | finished a w =>
-    simp only at hreg
+    simp only [Regular] at hreg
     rw [conclude_finished]
-    cases ho : sc.out.canOpen
+    cases ho : sc.out.writable
     · simp [GoodEnd, Ending.cause, hreg, ho, cannotWrite]
-    · have hfl := hflush ho
-      cases hd : sc.answer.haveDual <;> cases hp : sc.answer.havePrimal <;>
-        simp [GoodEnd, Ending.cause, hreg, ho, hfl, codeOK, okFile, hd, hp]
+    · cases hd : sc.answer.haveDual <;> cases hp : sc.answer.havePrimal <;>
+        simp [GoodEnd, Ending.cause, hreg, ho, codeOK, okFile, hd, hp]
   | raised a w st r =>
-    obtain ⟨hnf, hcode, hwi, hopt, hpop, hwant, hctor⟩ := hreg
+    obtain ⟨hnf, hopt, hpop, hwant, hctor⟩ := hreg
     rw [conclude_raised sc a w st r hnf]
     cases hi : st.insideRun
     · -- constructor stage: RunBackendApp's catch clauses
@@ -374,10 +392,9 @@ theorem C09_outcome_partial_end (sc : Scenario) (e : Ending) (hreg : Regular sc 
     · cases hh : st.handlerAvailable
       · simp [GoodEnd, Ending.cause, cannotWrite, hh]
       · have hw := hwant hh
-        cases ho : sc.out.canOpen
+        cases ho : sc.out.writable
         · simp [GoodEnd, Ending.cause, cannotWrite, hh, hw, ho]
-        · have hfl := hflush ho
-          have hdn : errDims sc st = sc.dims := by
+        · have hdn : errDims sc st = sc.dims := by
             by_cases hso : st = .options
             · subst hso; rw [hopt rfl]; simp [errDims, Stage.dimsKnown]
             · by_cases hsp : st = .populate
@@ -385,10 +402,10 @@ theorem C09_outcome_partial_end (sc : Scenario) (e : Ending) (hreg : Regular sc 
               · simp [errDims, dimsKnown_of_handler_ne_options st hh hso hsp]
           have hcls : codeOK sc.answer r.cause r.toExn.reportCode := by
             rw [reportCode_of_raise]
-            cases r <;> simp [Raise.cause, codeOK, Raise.exitFailureCtor] at hcode hwi ⊢
+            cases r <;> simp [Raise.cause, codeOK] at hnf ⊢
             rename_i c
-            by_cases hc : 0 ≤ c <;> simp [hc, codeOK]
-          simp [GoodEnd, Ending.cause, hh, hw, ho, hfl, errFile, hdn, hcls]
+            by_cases hc : 100 ≤ c <;> simp [hc, codeOK]
+          simp [GoodEnd, Ending.cause, hh, hw, ho, errFile, hdn, hcls]
 
 /-- **C09 (partial), stated on scenarios.** -/
 theorem C09_outcome_partial (sc : Scenario) (hreg : Regular sc (ending sc)) : Good sc (run sc) :=
@@ -416,7 +433,7 @@ theorem C09_success (sc : Scenario)
                     nprimals := if sc.answer.havePrimal then sc.dims.nvars else 0,
                     complete := true } false := by
   simp [run, ending, faultBefore, hfault, parseFlags_passing _ _ hflags, hstub, hampl,
-    parseOpts_clean _ _ hopts, hobj, conclude, handleSolution, wantsFile, hopen, hflush]
+    parseOpts_clean _ _ hopts, hobj, conclude, handleSolution, wantsFile, OutPath.writable, hopen, hflush]
 
 /-- An offending option token (anywhere in an otherwise clean prefix) ends every run that got as
 far as the header in the option window — with the `wantsol` stored so far. -/
@@ -448,11 +465,12 @@ theorem C09_counterexample_optdims :
     run { scBase with opts := [.bad] } = .sol ⟨500, 0, 0, 0, 0, true⟩ false ∧
     ¬ Good { scBase with opts := [.bad] } (run { scBase with opts := [.bad] }) := by decide
 
-/-- truncated NL body (or `.col` without final newline, or an unsupported operator): solve code 1. -/
-theorem C09_counterexample_code1 :
-    run { scBase with fault := some (.body, .readError) } = .sol ⟨1, 1, 0, 2, 0, true⟩ false ∧
-    ¬ Good { scBase with fault := some (.body, .readError) } (run { scBase with fault := some (.body, .readError) }) ∧
-    ¬ Good { scBase with fault := some (.convert, .unsupported) } (run { scBase with fault := some (.convert, .unsupported) }) := by
+/-- (fixed by abd397a; was `C09_counterexample_code1`) truncated NL body / unsupported operator:
+solve code 500 and the property holds. -/
+theorem C09_fixed_code1 :
+    run { scBase with fault := some (.body, .readError) } = .sol ⟨500, 1, 0, 2, 0, true⟩ false ∧
+    Good { scBase with fault := some (.body, .readError) } (run { scBase with fault := some (.body, .readError) }) ∧
+    Good { scBase with fault := some (.convert, .unsupported) } (run { scBase with fault := some (.convert, .unsupported) }) := by
   decide
 
 /-- a header whose counts are inconsistent (`MP_ASSERT_ALWAYS … num_vars mismatch` after
@@ -462,17 +480,17 @@ theorem C09_counterexample_hdrdims :
     ¬ Good { scBase with partialDims := ⟨0, 2⟩, fault := some (.populate, .plain) }
         (run { scBase with partialDims := ⟨0, 2⟩, fault := some (.populate, .plain) }) := by decide
 
-/-- binary `b` fixed to 1 and the logical constraint `not (b = 1)`: "Model infeasible: empty variable
-domain", solve code 500. -/
-theorem C09_counterexample_infeas500 :
-    run { scBase with fault := some (.convert, .wrappedInfeas) } = .sol ⟨500, 1, 0, 2, 0, true⟩ false ∧
-    ¬ Good { scBase with fault := some (.convert, .wrappedInfeas) } (run { scBase with fault := some (.convert, .wrappedInfeas) }) := by
+/-- (fixed by f454558; was `C09_counterexample_infeas500`) binary `b` fixed to 1 and `not (b = 1)`:
+"Model infeasible: empty variable domain" with solve code 200. -/
+theorem C09_fixed_infeas500 :
+    run { scBase with fault := some (.convert, .wrappedInfeas) } = .sol ⟨200, 1, 0, 2, 0, true⟩ false ∧
+    Good { scBase with fault := some (.convert, .wrappedInfeas) } (run { scBase with fault := some (.convert, .wrappedInfeas) }) := by
   decide
 
-/-- `<stub>.sol` → `/dev/full`: incomplete file, exit status 0. -/
-theorem C09_counterexample_writeerr :
-    run { scBase with out := ⟨true, false⟩ } = .sol ⟨0, 1, 1, 2, 2, false⟩ false ∧
-    ¬ Good { scBase with out := ⟨true, false⟩ } (run { scBase with out := ⟨true, false⟩ }) := by decide
+/-- (fixed by 87b3b50; was `C09_counterexample_writeerr`) `<stub>.sol` → `/dev/full`: stderr, exit 1. -/
+theorem C09_fixed_writeerr :
+    run { scBase with out := ⟨true, false⟩ } = .stderrExit 1 ∧
+    Good { scBase with out := ⟨true, false⟩ } (run { scBase with out := ⟨true, false⟩ }) := by decide
 
 /-- `recsolver stub foo=1` (no `-AMPL`): the error is printed on stdout, exit 0;
 with `wantsol=8` before it, nothing is printed at all. -/
